@@ -467,6 +467,7 @@ func checkGuardedRecursion(c *Ctx, r *Rec, info *types.Info, n *types.Named, ms 
 			limitHelper[name] = true
 		}
 	}
+	steppers := depthSteppers(c, info, ms, depthF)
 	for _, name := range names {
 		fd := ms[name]
 		params := paramObjs(info, fd)
@@ -540,7 +541,7 @@ func checkGuardedRecursion(c *Ctx, r *Rec, info *types.Info, n *types.Named, ms 
 			})
 		}
 		g := newFG(info, fd.Body)
-		deltas := depthDeltas(g, info, depthF)
+		deltas := depthDeltasWith(g, info, depthF, steppers)
 		addEdge := func(node ast.Node, callee *types.Func, how string, swapped bool) {
 			if callee == nil || recvNamed(callee) == nil || recvNamed(callee).Origin() != n.Origin() {
 				return
@@ -884,6 +885,41 @@ func checkGuardedRecursion(c *Ctx, r *Rec, info *types.Info, n *types.Named, ms 
 		}
 		sort.Strings(descents)
 		descents = dedup(descents)
+		// the descents made once per element of a traversal (inside a loop) with the counter not
+		// stepped up: the cases in which nesting of any width goes uncounted
+		var loopDesc []string
+		for _, e := range edges {
+			if e.guarded || e.inc || !in[e.from] || !in[e.to] || e.call == nil {
+				continue
+			}
+			inLoop := false
+			for _, p := range pathTo(e.host.Body, e.call) {
+				switch p.(type) {
+				case *ast.ForStmt, *ast.RangeStmt:
+					inLoop = true
+				}
+			}
+			if inLoop {
+				for _, a := range e.call.Args {
+					loopDesc = append(loopDesc, accessorNames(c, info, e.host, a, 0)...)
+				}
+				if len(e.call.Args) == 0 {
+					loopDesc = append(loopDesc, "(no argument)")
+				}
+			}
+		}
+		// loops over the fields or methods of a type are bounded by the type, not by the data:
+		// only descents into data elements (indexing, map lookups, iterator protocol) count here
+		structural := map[string]bool{"Field": true, "Method": true, "Call": true, "NumField": true, "NumMethod": true, "Elem": true, "Interface": true, "ValueOf": true, "MethodByName": true, "(no argument)": true}
+		var kept []string
+		for _, d := range loopDesc {
+			if !structural[d] {
+				kept = append(kept, d)
+			}
+		}
+		loopDesc = kept
+		sort.Strings(loopDesc)
+		loopDesc = dedup(loopDesc)
 		construct := role + "." + n.Obj().Name() + "/recursion-from{" + strings.Join(entries, ",") + "}"
 		if len(entries) == 0 {
 			construct = role + "." + n.Obj().Name() + "/cycle{" + strings.Join(comp, ",") + "}"
@@ -892,6 +928,9 @@ func checkGuardedRecursion(c *Ctx, r *Rec, info *types.Info, n *types.Named, ms 
 			"recursion cycle {"+strings.Join(comp, ",")+"} without depth accounting, entered through the dispatcher arms ["+strings.Join(arms, ", ")+"]: "+strings.Join(dedup(un), "; ")+" - a self-containing value recurses here until the stack overflows (fatal, not the documented recoverable depth-limit panic)")
 		_ = arms
 		o.Witness = "descends through: " + strings.Join(descents, ",")
+		if len(loopDesc) > 0 {
+			o.Witness += "; per element of a loop without a step: " + strings.Join(loopDesc, ",")
+		}
 	}
 }
 
@@ -971,6 +1010,11 @@ func nodeOf(g *FG, n ast.Node) ast.Node {
 
 // depthDeltas: net ++/-- of the counter before each CFG node (first value seen on any path).
 func depthDeltas(g *FG, info *types.Info, counter *types.Var) map[ast.Node]int {
+	return depthDeltasWith(g, info, counter, nil)
+}
+
+// depthDeltasWith also counts the calls of helpers that only step the counter by a fixed amount.
+func depthDeltasWith(g *FG, info *types.Info, counter *types.Var, steppers map[*types.Func]int) map[ast.Node]int {
 	out := map[ast.Node]int{}
 	in := map[*cfg.Block]int{}
 	seen := map[*cfg.Block]bool{}
@@ -994,6 +1038,13 @@ func depthDeltas(g *FG, info *types.Info, counter *types.Var) map[ast.Node]int {
 						cur++
 					} else {
 						cur--
+					}
+				}
+				if es, ok := n.(*ast.ExprStmt); ok && steppers != nil {
+					if call, ok := es.X.(*ast.CallExpr); ok {
+						if cf := calleeOf(info, call); cf != nil {
+							cur += steppers[cf.Origin()]
+						}
 					}
 				}
 			}
